@@ -177,6 +177,18 @@ impl CallRes {
 
 /// An `Encodable` user type emitting an arbitrary well-formed item.
 pub struct ItemEnc(pub Vec<u8>);
+/// An iterator adaptor that reports a chosen (legal) `size_hint`.
+pub struct Hinted<I>(pub I, pub Option<(usize, Option<usize>)>);
+impl<I: Iterator> Iterator for Hinted<I> {
+    type Item = I::Item;
+    fn next(&mut self) -> Option<I::Item> {
+        self.0.next()
+    }
+    fn size_hint(&self) -> (usize, Option<usize>) {
+        self.1.unwrap_or_else(|| self.0.size_hint())
+    }
+}
+
 /// the record behind `TVal::Record`
 pub fn example_record() -> &'static Enr<k256::ecdsa::SigningKey> {
     static R: std::sync::OnceLock<Enr<k256::ecdsa::SigningKey>> = std::sync::OnceLock::new();
@@ -273,9 +285,16 @@ pub fn apply_op<K: Fam>(e: &mut Enr<K>, op: &Op, keys: &[K]) -> CallRes {
         }
         Op::RemoveKey { key, k } => map_res(e.remove_key(key, &keys[*k]), |_| Ret::Unit),
         Op::RemoveInsert { remove, insert, k } => {
+            // the lists are handed over as iterators whose size_hint varies with the call: exact (slices),
+            // unknown upper bound, or a huge legal upper bound (as `(0..usize::MAX).map_while(..)` reports)
+            let hint = match (remove.len() + 2 * insert.len()) % 3 {
+                0 => None,
+                1 => Some((0, None)),
+                _ => Some((0, Some(usize::MAX))),
+            };
             let r = e.remove_insert(
-                remove.iter(),
-                insert.iter().map(|(a, b)| (a.clone(), b.as_slice())),
+                Hinted(remove.iter(), hint),
+                Hinted(insert.iter().map(|(a, b)| (a.clone(), b.as_slice())), hint),
                 &keys[*k],
             );
             map_res(r, |(a, b)| {
@@ -360,49 +379,61 @@ fn b_tval<K: Fam>(b: &mut enr::Builder<K>, key: &[u8], v: &TVal) {
 }
 
 pub fn run_builder<K: Fam>(calls: &[BCall], key: &K) -> Result<Result<Enr<K>, EnrError>, String> {
-    run_builder2::<K>(calls, None, key)
+    let mut b = Enr::<K>::builder();
+    guarded(|| apply_bcalls(&mut b, calls))?;
+    guarded(|| b.build(key))
 }
 
 /// `first`: build once with this key before the build that counts (builder reuse)
-pub fn run_builder2<K: Fam>(calls: &[BCall], first: Option<&K>, key: &K) -> Result<Result<Enr<K>, EnrError>, String> {
-    guarded(|| {
-        let mut b = Enr::<K>::builder();
-        for c in calls {
-            match c {
-                BCall::Seq(s) => {
-                    b.seq(*s);
-                }
-                BCall::AddValue { key, val } => b_tval(&mut b, key, val),
-                BCall::AddValueRlp { key, raw } => {
-                    b.add_value_rlp(key, Bytes::copy_from_slice(raw));
-                }
-                BCall::Ip(ip) => {
-                    b.ip(*ip);
-                }
-                BCall::Ip4(ip) => {
-                    b.ip4(*ip);
-                }
-                BCall::Ip6(ip) => {
-                    b.ip6(*ip);
-                }
-                BCall::Port { which, port } => {
-                    match which {
-                        PortKey::Tcp => b.tcp4(*port),
-                        PortKey::Tcp6 => b.tcp6(*port),
-                        PortKey::Udp => b.udp4(*port),
-                        PortKey::Udp6 => b.udp6(*port),
-                    };
-                }
-                BCall::ClientInfo { name, version, build } => {
-                    b.client_info(name.clone(), version.clone(), build.clone());
-                }
+fn apply_bcalls<K: Fam>(b: &mut enr::Builder<K>, calls: &[BCall]) {
+    for c in calls {
+        match c {
+            BCall::Seq(s) => {
+                b.seq(*s);
+            }
+            BCall::AddValue { key, val } => b_tval(b, key, val),
+            BCall::AddValueRlp { key, raw } => {
+                b.add_value_rlp(key, Bytes::copy_from_slice(raw));
+            }
+            BCall::Ip(ip) => {
+                b.ip(*ip);
+            }
+            BCall::Ip4(ip) => {
+                b.ip4(*ip);
+            }
+            BCall::Ip6(ip) => {
+                b.ip6(*ip);
+            }
+            BCall::Port { which, port } => {
+                match which {
+                    PortKey::Tcp => b.tcp4(*port),
+                    PortKey::Tcp6 => b.tcp6(*port),
+                    PortKey::Udp => b.udp4(*port),
+                    PortKey::Udp6 => b.udp6(*port),
+                };
+            }
+            BCall::ClientInfo { name, version, build } => {
+                b.client_info(name.clone(), version.clone(), build.clone());
             }
         }
-        if let Some(f) = first {
-            let _ = b.build(f);
-        }
-        b.build(key)
-    })
+    }
+}
+
+/// The same `Builder` value used for two builds: first with `real[first]` (result dropped), then with
+/// `real[0]`.  Both keys are handed over FROM THE SAME MEMORY SLOT (`real[0]`, by swapping the keys in and
+/// out), as a program does that rotates `node.key` in place: a library must not tell keys apart by address.
+pub fn run_builder2<K: Fam>(calls: &[BCall], real: &mut [K], first: usize) -> Result<Result<Enr<K>, EnrError>, String> {
+    let mut b = Enr::<K>::builder();
+    guarded(|| apply_bcalls(&mut b, calls))?;
+    if first < real.len() {
+        real.swap(0, first);
+        let r = guarded(|| {
+            let _ = b.build(&real[0]);
+        });
+        real.swap(0, first);
+        r?;
+    }
+    guarded(|| b.build(&real[0]))
 }
 
 /// Bytes of the harness-signed initial record for `Init::Decoded`.
@@ -491,7 +522,7 @@ fn run_typed<K: Fam, V: Visitor>(h: &History, v: &mut V) -> Result<HistOutcome, 
         .enumerate()
         .map(|(i, s)| KeyInfo { fam: fam_of(i), secret: s.0, pk: fam_of(i).ref_pk(&s.0) })
         .collect();
-    let real: Vec<K> = h.keys.iter().enumerate().map(|(i, s)| K::make(fam_of(i), &s.0)).collect();
+    let mut real: Vec<K> = h.keys.iter().enumerate().map(|(i, s)| K::make(fam_of(i), &s.0)).collect();
     keys::fault_reset(h.fault_at);
     // initial record
     let (res, enr): (CallRes, Option<Enr<K>>) = match &h.init {
@@ -501,7 +532,7 @@ fn run_typed<K: Fam, V: Visitor>(h: &History, v: &mut V) -> Result<HistOutcome, 
             Ok(Err(e)) => (CallRes::Err(ek_of(&e), format!("{e:?}")), None),
             Err(p) => (CallRes::Panic(p), None),
         },
-        Init::BuilderReuse { calls, first } => match run_builder2::<K>(calls, real.get(*first), &real[0]) {
+        Init::BuilderReuse { calls, first } => match run_builder2::<K>(calls, &mut real, *first) {
             Ok(Ok(e)) => (CallRes::Ok(Ret::Unit), Some(e)),
             Ok(Err(e)) => (CallRes::Err(ek_of(&e), format!("{e:?}")), None),
             Err(p) => (CallRes::Panic(p), None),
@@ -639,11 +670,11 @@ fn run_blind_typed<K: Fam>(h: &History, upto: usize, order: u8) -> Result<Option
     if h.keys.is_empty() || h.keys.iter().enumerate().any(|(i, s)| !fam_of(i).secret_ok(&s.0)) || h.alt_keys.contains(&0) {
         return Ok(None);
     }
-    let real: Vec<K> = h.keys.iter().enumerate().map(|(i, s)| K::make(fam_of(i), &s.0)).collect();
+    let mut real: Vec<K> = h.keys.iter().enumerate().map(|(i, s)| K::make(fam_of(i), &s.0)).collect();
     keys::fault_reset(h.fault_at);
     let enr: Option<Enr<K>> = match &h.init {
         Init::Builder { calls } if calls.is_empty() && h.ops.len() % 2 == 1 => guarded(|| Enr::<K>::empty(&real[0])).ok().and_then(|r| r.ok()),
-        Init::BuilderReuse { calls, first } => run_builder2::<K>(calls, real.get(*first), &real[0]).ok().and_then(|r| r.ok()),
+        Init::BuilderReuse { calls, first } => run_builder2::<K>(calls, &mut real, *first).ok().and_then(|r| r.ok()),
         Init::Builder { calls } => run_builder::<K>(calls, &real[0]).ok().and_then(|r| r.ok()),
         Init::Decoded { seq, pairs } => {
             let bytes = decoded_init_bytes(h.fam, &h.keys[0].0, *seq, pairs);
